@@ -113,11 +113,15 @@ class Execution:
                  "locks", "used_preemptions", "total_steps", "log")
 
 
-def run_program(world, calls, order, preemptions, mp_mode=False, keep_dir=False):
-    """Run the calls (one thread each) on a fresh copy of the start state under the given schedule."""
+def run_program(world, calls, order, preemptions, mp_mode=False, keep_dir=False, on=None):
+    """Run the calls (one thread each) on a fresh copy of the start state under the given schedule
+    (or, with on=(directory, store), on an existing store instance)."""
     fsi.install()
-    d = world.fresh_copy()
-    store = sched.make_owned_store(d, world.cfg, mp_mode)
+    if on is not None:
+        d, store = on
+    else:
+        d = world.fresh_copy()
+        store = sched.make_owned_store(d, world.cfg, mp_mode)
     s = sched.Sched(d)
     for op in calls:
         s.add(lambda op=op: world.exec_call(store, op))
@@ -148,7 +152,7 @@ def run_program(world, calls, order, preemptions, mp_mode=False, keep_dir=False)
 
 def linearizable(world, calls, ex, mp_mode=False, widen=None):
     """None if the execution equals some sequential order (after dropping calls rejected with the
-    documented already-in-progress outcome), else a description.  `widen(op, outcome, seq_outcome)`
+    documented already-in-progress outcome), else a description.  `widen(op, outcome, seq_outcome, all sequential outcomes of that call)`
     may accept additional per-call outcomes (C12's reader widening)."""
     indexed = list(enumerate(calls))
     dropped = []
@@ -163,8 +167,10 @@ def linearizable(world, calls, ex, mp_mode=False, widen=None):
     if (vec, akey) in spec:
         return None
     if widen is not None:
+        per_call = [set(k[0][n] for k in spec) for n in range(len(rest))]
         for (svec, sakey) in spec:
-            if sakey == akey and all(a == b or widen(op, a, b) for (i, op), a, b in zip(rest, vec, svec)):
+            if sakey == akey and all(a == b or widen(op, a, b, per_call[n])
+                                     for n, ((i, op), a, b) in enumerate(zip(rest, vec, svec))):
                 return None
     # describe the closest sequential behaviour
     same_out = [k for k in spec if k[0] == vec]
@@ -244,22 +250,30 @@ def op_pattern(op, world):
     return k
 
 
-def single_preemption_schedules(world, calls, mp_mode=False, max_preempt=1, limit=None):
+def single_preemption_schedules(world, calls, mp_mode=False, max_preempt=1, limit=None, firsts=(0, 1),
+                                i_mod=(1, 0)):
     """Enumerate schedules with <= max_preempt preemptions for a 2-thread program:
     yields (order, preemptions, Execution)."""
     n = len(calls)
     assert n == 2
-    for first in (0, 1):
+    m, k = i_mod
+    for first in firsts:
         order = [first, 1 - first]
-        ex0 = run_program(world, calls, order, [], mp_mode)
-        yield order, [], ex0
+        if k == 0:
+            ex0 = run_program(world, calls, order, [], mp_mode)
+            yield order, [], ex0
         if max_preempt < 1:
             continue
-        i = 1
+        i = 0
         while True:
+            i += 1
+            if limit and i > limit:
+                break
             ex = run_program(world, calls, order, [(i, 0)], mp_mode)
             if ex.used_preemptions == 0:
                 break
+            if i % m != k:
+                continue
             yield order, [(i, 0)], ex
             if max_preempt >= 2:
                 j = 1
@@ -271,6 +285,3 @@ def single_preemption_schedules(world, calls, mp_mode=False, max_preempt=1, limi
                     j += 1
                     if limit and j > limit:
                         break
-            i += 1
-            if limit and i > limit:
-                break
